@@ -72,6 +72,12 @@ type Env struct {
 	Cap  btcutil.Amount
 
 	Script     [2][]byte
+
+	// AltScripts: delivery scripts a party switched to in a later RBF round
+
+	// (closer_script of a later closing_complete may differ from the shutdown script)
+
+	AltScripts [2][][]byte
 	ScriptKind [2]int
 
 	Taproot bool
@@ -225,6 +231,11 @@ func (e *Env) checkOutputs(tx *wire.MsgTx, c txCtx) {
 		for x := 0; x < 2; x++ {
 			if bytes.Equal(o.PkScript, e.Script[x]) {
 				owner = x
+			}
+			for _, alt := range e.AltScripts[x] {
+				if bytes.Equal(o.PkScript, alt) {
+					owner = x
+				}
 			}
 		}
 		if owner < 0 {
